@@ -147,6 +147,24 @@ CLAIMED = {
              'string constant and nothing but the given set is consulted; only the timeout instruction writes the '
              'timeout; no process is started with cwd=.',
         design='DESIGN.md section 5, C11'),
+    'C15': dict(
+        technique='configuration-obligation and who-may-construct checks on the file-list layers; abstract evaluation '
+                  'of constructors and layer methods on explicit entry lists; guard/path analysis of the name validator '
+                  'and of file creation with forked OS outcomes; fold-shape analysis of quantifiers and matches; '
+                  'table agreement of the file-type tables; who-may-call for symbolic-link resolution with a fixture '
+                  'positive control',
+        text='Every file-list entry composes _IsValidPosixPath(<its own name>) and the validator of its contents into '
+             'its validator, and the list composes all entries; the name validator rejects absolute names and `..` '
+             'parts on every path that accepts a name; primitive entries are constructed only from the validated '
+             'layers and each is made at the populated directory followed by the parts of its own name, in the listed '
+             'order through all four layers; _create_file refuses an existing path before opening anything and opens '
+             'with mode "x"; Exists / ForAll and matches [-full] are ANY / ALL folds that stop at the deciding element; '
+             '-selection composes a conjunction and -with-pruned a disjunction with the earlier matcher first, other '
+             'components kept; the file-type tables (syntax token, stat predicate, path predicate, the two accessors, '
+             'the type matcher) agree for each of the three types; nothing in the matcher / file-list packages '
+             'resolves symbolic links.',
+        design='DESIGN.md section 5, C15',
+        note='Not decided: the tree produced or matched for a given list / matcher, depth limits, counting (value level).'),
     'C16': dict(
         technique='constant folding of the verdict sets (partition); decision tables of the progress and JUnit '
                   'reporters by abstract evaluation per kind of case result; typestate of the per-case loop and '
